@@ -67,6 +67,21 @@ def slot(ttu, tiu, bl, br, ty):
     format!("{{}} {{}} {{}} {{}}", ts, ds, sh(&r.value), sh(&r.get::<NP>()))"""
 
 
+def anchor_slot(bl, ty):
+    """0 degC = 273.15 K = 32 degF, asked of the implementation itself (the numbers are the property's, not the tables')."""
+    rt = STYPES[ty]["rust"]
+    return f"""    type V = {rt};
+    type P = uom::si::thermodynamic_temperature::ThermodynamicTemperature<{units_type(bl, ty)}, V>;
+    use uom::si::thermodynamic_temperature::{{kelvin, degree_celsius, degree_fahrenheit}};
+    let p = |s: &str| -> V {{ {parse_expr(ty, 's')} }};
+    let sh = |v: &V| -> String {{ {show_expr(ty, 'v.clone()')} }};
+    let c0 = P::new::<degree_celsius>(p(a[1]));
+    let k = P::new::<kelvin>(p(a[2]));
+    let f = P::new::<degree_fahrenheit>(p(a[3]));
+    format!("{{}} {{}} {{}} {{}} {{}} {{}}", sh(&c0.get::<kelvin>()), sh(&c0.get::<degree_fahrenheit>()), sh(&k.get::<degree_celsius>()), sh(&k.get::<degree_fahrenheit>()),
+            sh(&f.get::<degree_celsius>()), sh(&f.get::<kelvin>()))"""
+
+
 def run(ctx):
     if not ctx.translate():
         return
@@ -104,12 +119,22 @@ def run(ctx):
                             cid = f"t{len(cases)}"
                             cases.append((cid, sl, [op, tt_, dt_]))
                             meta[cid] = (ty, bl, br, pu, iu, op, tt_, dt_, sl)
+    anchor_cases = {}
+    for ty in TYPES:
+        for bl in TBASES:
+            sl = h.slot(anchor_slot(bl, ty))
+            cid = f"t{len(cases)}"
+            if B.is_float(ty):
+                args = [VG.val_text(ty, nearest(Fraction(x), ty, x)) for x in ("0", "273.15", "32")]
+            else:
+                args = [VG.val_text(ty, Fraction(x)) for x in ("0", "273.15", "32")]
+            anchor_cases[cid] = (ty, bl, sl, ["anchor"] + args)
     ctx.log(f"{len(h.slots)} slots, {len(cases)} cases; building harness")
     if not h.build():
         ctx.log(h.build_log[-3000:])
         ctx.violation({"kind": "harness-build", "obligation": "the temperature point/interval harness no longer compiles against /repo", "log": h.build_log[-3000:]}, no_input=True)
         return
-    impl = h.run(cases)
+    impl = h.run(cases + [(cid, v[2], v[3]) for cid, v in anchor_cases.items()])
     # model, stage by stage, each stage fed with the implementation's previous stage
     mlines = []
     Ub = {b: T.sexp_list(t.base_unit_exprs(base_names(b))) for b in TBASES}
@@ -211,6 +236,28 @@ def run(ctx):
                    "without autoconvert and compared answer by answer; programs: From/Into between point and interval in "
                    "every direction and base combination, point +/- point, point +/- interval, interval - point, negation, with positive controls, judged by rustc with "
                    "and without autoconvert against the typing model")
+    # 0 degC = 273.15 K = 32 degF in every storage precision and temperature base unit: the property's own numbers
+    anchor_bad = []
+    for cid, (ty, bl, sl, args) in anchor_cases.items():
+        got = (impl.get(cid) or "").split(" ")
+        want = [Fraction("273.15"), Fraction(32), Fraction(0), Fraction(32), Fraction(0), Fraction("273.15")]
+        names = ["0 degC in K", "0 degC in degF", "273.15 K in degC", "273.15 K in degF", "32 degF in degC", "32 degF in K"]
+        if len(got) != 6:
+            anchor_bad.append((cid, f"harness answered {impl.get(cid)}"))
+            continue
+        tol = Fraction(1, 10 ** 4) if ty == "f32" else Fraction(1, 10 ** 11)      # absolute, in kelvin-sized units (values are <= 300)
+        for g, w, nm in zip(got, want, names):
+            gv = X_parse(ty, g)
+            if gv is None or abs(gv - w) > tol:
+                anchor_bad.append((cid, f"{nm}: got {g if gv is None else float(gv)!r}, the property says {float(w)}"))
+                break
+    for cid, why in anchor_bad[:3]:
+        ty, bl, sl, args = anchor_cases[cid]
+        ctx.violation({"kind": "temperature anchor", "spec": "C09: 0 degC = 273.15 K = 32 degF for every storage precision and base-unit set", "storage": ty,
+                       "temperature_base": TBASES[bl], "detail": why, "implementation": impl.get(cid),
+                       "harness": {"features": h.features, "prelude": h.prelude, "cases": [{"slot_body": h.slots[sl], "args": args}]}})
+    cov["anchor_cases"] = len(anchor_cases)
+    cov["anchor_failures"] = len(anchor_bad)
     # the same programs built WITHOUT autoconvert (same-base pairs only: the others do not compile there) give the same answers
     hn = Harness("c09n", [f for f in FEATURES if f != "autoconvert"], prelude=prelude(TYPES))
     ncases, nref = [], {}
@@ -273,6 +320,14 @@ def run(ctx):
     smp = ctx.rng.fork("samples").sample(cases, 6)
     cov["samples"] = [{"storage": meta[c][0], "bases": [meta[c][1], meta[c][2]], "point_unit": meta[c][3]["name"], "interval_unit": meta[c][4]["name"], "args": a,
                        "implementation": impl.get(c)} for c, _, a in smp]
+
+
+def X_parse(ty, text):
+    from . import convx
+    try:
+        return convx.parse_value(ty, text)
+    except (ValueError, ZeroDivisionError):
+        return None
 
 
 def nearest(fr, ty, txt):
